@@ -1,6 +1,7 @@
 package props
 
 import (
+	"time"
 	"fmt"
 	"os"
 	"path/filepath"
@@ -224,6 +225,30 @@ func (e *engRunner) faultSweep(family string, idx int, gcfg gen.Cfg, rec eng.Rec
 		r.Nontrivial(rep.Hash("fault", family, gcfg.String(), rec.String(), aDesc, bDesc, fmt.Sprint(k)))
 	}
 	return points
+}
+
+// sweepSlowClock: like sweepPair (A parked before each of its operations while B runs), with
+// the virtual clock advancing one second per reading.
+func (e *engRunner) sweepSlowClock(family string, idx int, gcfg gen.Cfg, rec eng.Recipe, aDesc, bDesc string, preOpen bool) int {
+	n := 0
+	for k := 1; k < 300; k++ {
+		ts := newTxnSource(gen.Mix(e.c.Seed, int64(idx)*1000+41), gcfg.HashSize())
+		scripts := [][]eng.Call{ts.mkCalls(aDesc), ts.mkCalls(bDesc)}
+		if !preOpen {
+			for i := range scripts {
+				scripts[i] = append([]eng.Call{{Kind: "open"}}, scripts[i]...)
+			}
+		}
+		pol := &eng.Sweep1{A: 0, K: k}
+		sc := &eng.Scenario{Name: fmt.Sprintf("slow clock (2 s per reading): A=[%s] paused before its op %d while B=[%s] runs; preopen=%v", aDesc, k, bDesc, preOpen),
+			GCfg: gcfg, Init: rec, Scripts: scripts, Policy: pol, SkipTmpWrites: true, PreOpen: preOpen, ClockStep: 2 * time.Second}
+		res := e.run(sc, family, idx)
+		n++
+		if res.SetupErr != nil || !pol.Paused {
+			break
+		}
+	}
+	return n
 }
 
 // faultPauseSweep: process F=[fDesc] takes an injected I/O error at its operation k while
@@ -452,6 +477,21 @@ func RunC10(c *Ctx) {
 						}
 						idx++
 					}
+				}
+			}
+		}
+	}
+	// a slow machine: every reading of the clock by the reloading handle finds a second
+	// gone, so the reload's own deadline (2.5 s) expires after its first failed attempt;
+	// it must then report failure, not success with a stale or empty stack
+	for ai, a := range []string{"reopen,read", "add,read", "addempty,read", "compactall,read", "clean,read"} {
+		for bi, b := range []string{"add,compactall", "compactall", "add,add,compactall", "cr01,add"} {
+			for ri, rec := range []eng.Recipe{{0, 0}, {60, 0, 0}} {
+				for _, pre := range []bool{true, false} {
+					if c.Mine(idx) {
+						e.sweepSlowClock("slow-clock-reload-sweep", idx, engCfg(ai+bi+ri), rec, a, b, pre)
+					}
+					idx++
 				}
 			}
 		}
